@@ -49,11 +49,18 @@ fcppt::container::bitfield::proxy<StoredType>::proxy(proxy &&) noexcept = defaul
 
 template <typename StoredType>
 fcppt::container::bitfield::proxy<StoredType> &
-fcppt::container::bitfield::proxy<StoredType>::operator=(proxy const &) = default;
+fcppt::container::bitfield::proxy<StoredType>::operator=(proxy const &_other)
+{
+  // A proxy stands for a reference to a bool: assign the referenced bit instead of re-seating
+  return *this = static_cast<fcppt::container::bitfield::value_type>(_other);
+}
 
 template <typename StoredType>
 fcppt::container::bitfield::proxy<StoredType> &
-fcppt::container::bitfield::proxy<StoredType>::operator=(proxy &&) noexcept = default;
+fcppt::container::bitfield::proxy<StoredType>::operator=(proxy &&_other) noexcept
+{
+  return *this = static_cast<fcppt::container::bitfield::value_type>(_other);
+}
 
 namespace fcppt::container::bitfield
 {
